@@ -105,6 +105,43 @@ def space_nonsyntactic_nullable_field(d):
     return any(space_nonsyntactic_nullable_field(c) for c in space.children(d))
 
 
+def _format_self(res, d, fmt, o):
+    from vmc import formats
+    Mixin, to_name, _ = formats.mixin(fmt)
+    ident = (lambda dd, **kw: dd)
+    with space.Ctx(dc={"base": "_FMB"}) as ctx:
+        ctx.ns["_FMB"] = Mixin
+        try:
+            space.hint(d, ctx)
+            vals = space.values(d, ctx)
+        except Exception as e:   # noqa: BLE001
+            res.cases += 1
+            res.violation(f"build-failed|{space.show(d)}|{fmt}|fself", "build-failed", e1.exc_class(e),
+                          dict(desc=d, format=fmt, entry="fself", value_index=-1), repr(e)[:300])
+            return
+        for idx, v in enumerate(vals):
+            res.cases += 1
+            res.transitions += 1
+            try:
+                exp = ref.encode(d, v, ctx, o)
+            except ref.Reject:
+                continue
+            r1 = e1.outcome(lambda: getattr(v, to_name)(encoder=ident))
+            if r1[0] == "exc":
+                res.violation(f"encode-raised|{space.show(d)}|{fmt}|fself|{e1.exc_class(r1[1])}", "encode-raised", e1.exc_class(r1[1]),
+                              dict(desc=d, format=fmt, entry="fself", value_index=idx, facts=dict(nonsyntactic_nullable_field=space_nonsyntactic_nullable_field(d))),
+                              f"{r1[1]!r:.300} value={v!r:.200}")
+                continue
+            if not ref.same(r1[1], exp):
+                facts = dict(only_extra_null_keys=_only_extra_null_keys(r1[1], exp), nonsyntactic_nullable_field=space_nonsyntactic_nullable_field(d))
+                res.violation(f"ref-encode-neq|{space.show(d)}|{fmt}|fself|neq", "ref-encode-neq", "neq",
+                              dict(desc=d, format=fmt, entry="fself", value_index=idx, facts=facts),
+                              f"value={v!r:.250} expected={exp!r:.250} got={r1[1]!r:.250}")
+                continue
+            res.outcomes["ok"] += 1
+            res.nontrivial += 1
+
+
 def run_case(unit):
     d, fmt = unit
     res = core.UnitResult()
@@ -139,6 +176,10 @@ def run_case(unit):
                 res.cases += 1
                 continue
             encs[ep] = r[1] if ep == "fmixin" else r[1].encode
+        if fmt != "default" and d[0] in ("dc", "dcgeninh", "dcinh", "dcself", "dcselft", "dcfwd") and (d[0] != "dc" or d[1] != "plain"):
+            # (an instance of an unspecialised generic class has no type arguments of its own: dcgen is left out)
+            # the class itself built on the format mixin: its own to_<format>(encoder=identity)
+            _format_self(res, d, fmt, o)
         for idx, v in enumerate(vals):
             try:
                 exp = ref.encode(d, v, ctx, o)
